@@ -91,7 +91,9 @@ func StripComments(sql string) (string, []string, error) {
 			comments = append(comments, strings.TrimPrefix(t, "--"))
 			continue
 		}
-		if strings.HasPrefix(t, "/*") && strings.HasSuffix(t, "*/") {
+		// a whole-line block comment: the comment that opens the line is the
+		// one that closes it (not `/* a */ code /* b */`)
+		if strings.HasPrefix(t, "/*") && strings.HasSuffix(t, "*/") && strings.Index(t, "*/") == len(t)-2 {
 			t = strings.TrimPrefix(t, "/*")
 			t = strings.TrimSuffix(t, "*/")
 			comments = append(comments, t)
